@@ -28,6 +28,8 @@ func init() {
 		{WL: "conversion", Cfg: "prop=C15,steer=1", Quick: 200, Thor: 5000},
 		{WL: "conversion", Cfg: "prop=C15,steer=1,faults=exit", Quick: 200, Thor: 5000},
 		{WL: "conversion", Cfg: "prop=C15,steer=1,faults=exit,clients=1", Quick: 300, Thor: 8000},
+		{WL: "conversion", Cfg: "prop=C15,shape=fork,faults=exit,clients=1", Quick: 300, Thor: 8000},
+		{WL: "conversion", Cfg: "prop=C15,steer=1,faults=exit,clients=1,mixed=1", Quick: 200, Thor: 6000},
 	}
 }
 
@@ -399,7 +401,13 @@ func runConversionWL(e *Env) {
 		// away from the known finding (version names that contain another version name)
 		vers = []string{"va", "vb", "vc", "vd", "ve", "vf"}
 	}
-	vers = vers[:3+wl.Choose(len(vers)-2)]
+	fork := e.CfgIs("shape", "fork")
+	mixed := e.CfgIs("mixed", "1")
+	if fork {
+		vers = []string{"va", "vb", "vc", "vd", "ve", "vf", "vg", "vh"}
+	} else {
+		vers = vers[:3+wl.Choose(len(vers)-2)]
+	}
 	spell := func(v string) string {
 		if wl.Choose(2) == 0 {
 			return convGroup + "/" + v
@@ -411,6 +419,23 @@ func runConversionWL(e *Env) {
 	nr := 1 + wl.Choose(7)
 	nh := 1 + wl.Choose(2)
 	hookPathsC := []string{"conv-a.sh", "conv-b.sh"}
+	var leaves []string
+	if fork {
+		// a linear chain of L steps from va, then K leaves behind its end: several declared paths
+		// share a long prefix
+		nr = 0
+		L, K := 2+wl.Choose(3), 2+wl.Choose(2)
+		for i := 0; i < L; i++ {
+			hi := wl.Choose(nh)
+			rules = append(rules, convRule{Hook: hookPathsC[hi], Binding: "conv" + strconv.Itoa(hi), From: spell(vers[i]), To: spell(vers[i+1])})
+		}
+		for k := 0; k < K; k++ {
+			hi := wl.Choose(nh)
+			rules = append(rules, convRule{Hook: hookPathsC[hi], Binding: "conv" + strconv.Itoa(hi), From: spell(vers[L]), To: spell(vers[L+1+k])})
+			leaves = append(leaves, vers[L+1+k])
+		}
+		vers = vers[:L+1+K]
+	}
 	for i := 0; i < nr; i++ {
 		a, b := vers[wl.Choose(len(vers))], vers[wl.Choose(len(vers))]
 		if wl.Bias(2, 3) && len(rules) > 0 {
@@ -438,7 +463,20 @@ func runConversionWL(e *Env) {
 		if len(convs) == 0 {
 			continue
 		}
-		hooks = append(hooks, &HookSpec{Path: hookPathsC[hi], Extra: map[string]any{"kubernetesCustomResourceConversion": []any{map[string]any{"name": "conv" + strconv.Itoa(hi), "crdName": convCRD, "conversions": convs}}}})
+		cb := map[string]any{"name": "conv" + strconv.Itoa(hi), "crdName": convCRD, "conversions": convs}
+		h := &HookSpec{Path: hookPathsC[hi]}
+		if mixed {
+			// the hook also has a schedule binding in the main queue (sometimes in the same group):
+			// its tasks wait at the head of that queue while conversion requests arrive
+			sb := SchedBinding{Name: "tick", Crontab: "* * * * * *"}
+			if wl.Choose(2) == 0 {
+				sb.Group = "g"
+				cb["group"] = "g"
+			}
+			h.Sched = []SchedBinding{sb}
+		}
+		h.Extra = map[string]any{"kubernetesCustomResourceConversion": []any{cb}}
+		hooks = append(hooks, h)
 	}
 	o := NewOpSim(e, hooks)
 	o.API.ApplyNamespace("default", nil)
@@ -470,6 +508,9 @@ func runConversionWL(e *Env) {
 	nreq := 1 + wl.Choose(6)
 	for i := 0; i < nreq; i++ {
 		a, b := vers[wl.Choose(len(vers))], vers[wl.Choose(len(vers))]
+		if fork && wl.Bias(2, 3) {
+			a, b = vers[wl.Choose(2)], leaves[wl.Choose(len(leaves))]
+		}
 		if a == b {
 			continue
 		}
@@ -481,13 +522,34 @@ func runConversionWL(e *Env) {
 		Msg  string
 	}
 	stepLog := map[string][]string{}  // uid -> steps "from>to@hook"
+	var foreign []string               // executions with a Conversion context and anything else
 	outcomes := map[string][]stepOutcome{}
 	o.Behave = func(x *Exec) {
 		x.Dur = time.Duration(wl.Choose(3)) * 50 * time.Millisecond
-		if len(x.Ctxs) != 1 || x.Ctxs[0].Type != "Conversion" {
+		var c Ctx
+		nconv := 0
+		for _, cc := range x.Ctxs {
+			if cc.Type == "Conversion" {
+				c = cc
+				nconv++
+			}
+		}
+		if nconv == 0 {
+			if mixed {
+				// executions of the schedule binding: slow, sometimes failing (back-off at the head of main)
+				x.Dur = []time.Duration{0, 400 * time.Millisecond, 1500 * time.Millisecond}[wl.Choose(3)]
+				x.Fail = wl.Choose(4) == 0
+				for _, cc := range x.Ctxs {
+					if cc.Type != "Schedule" && cc.Type != "Group" {
+						x.Fail = false
+					}
+				}
+			}
 			return
 		}
-		c := x.Ctxs[0]
+		if nconv != 1 || len(x.Ctxs) != 1 {
+			foreign = append(foreign, fmt.Sprintf("execution #%d of %s received %s", x.N, x.Hook, strings.Join(identities(x), "; ")))
+		}
 		rv, _ := c.Raw["review"].(map[string]any)
 		rq, _ := rv["request"].(map[string]any)
 		uid := fmt.Sprint(rq["uid"])
@@ -557,6 +619,9 @@ func runConversionWL(e *Env) {
 						continue
 					}
 					simrt.Yield("client")
+					if mixed {
+						simrt.Sleep(time.Duration(wl.Choose(30)) * 100 * time.Millisecond)
+					}
 					var objs []string
 					for k := 0; k < r.NObj; k++ {
 						objs = append(objs, fmt.Sprintf(`{"apiVersion":"%s/%s","kind":"CronTab","metadata":{"name":"o%d"}}`, convGroup, r.From, k))
@@ -593,6 +658,9 @@ func runConversionWL(e *Env) {
 	panicsToViolations(e, "C15")
 	e.Out.NonTrivial = len(rules) > 1 && len(reqs) > 0
 	if err == nil && o.BootErr == nil && len(e.S.Panics) == 0 {
+		for _, f := range foreign {
+			e.Viol("C15", "V7", "foreign-contexts-in-conversion-step", "a conversion step is an execution of its own with the one Conversion context: %s", f)
+		}
 		for _, r := range reqs {
 			var review struct {
 				Response *struct {
@@ -686,6 +754,11 @@ func runConversionWL(e *Env) {
 				cur = t
 			}
 			if !okChain {
+				continue
+			}
+			if firstFail < 0 && cur != r.To {
+				// every invoked step succeeded, yet the sequence ends elsewhere: not a chain from A to B
+				e.Viol("C15", "V3", pathSig("chain-does-not-reach-target"), "the invoked steps end at %s, not at %s; %s", cur, r.To, desc)
 				continue
 			}
 			allOK := firstFail < 0 && cur == r.To
